@@ -1,0 +1,33 @@
+//go:build verif
+
+package fasthttp
+
+import (
+	"reflect"
+	"sync/atomic"
+	"unsafe"
+)
+
+// Thin exports for the /verif correspondence harness (property C12: connection limits and their counters).
+
+// VerifPerIPCounts returns a copy of s.perIPConnCounter.m, read under its lock.
+func VerifPerIPCounts(s *Server) map[uint32]int {
+	cc := &s.perIPConnCounter
+	cc.lock.Lock()
+	defer cc.lock.Unlock()
+	m := make(map[uint32]int, len(cc.m))
+	for k, v := range cc.m {
+		m[k] = v
+	}
+	return m
+}
+
+// VerifServerInt32 reads an atomic.Int32 field of Server by name (for example "serving", the number of
+// running Serve loops); ok is false when the Server has no such field.
+func VerifServerInt32(s *Server, field string) (v int32, ok bool) {
+	f := reflect.ValueOf(s).Elem().FieldByName(field)
+	if !f.IsValid() || f.Type() != reflect.TypeOf(atomic.Int32{}) {
+		return 0, false
+	}
+	return (*atomic.Int32)(unsafe.Pointer(f.UnsafeAddr())).Load(), true
+}
